@@ -53,3 +53,9 @@ Section Spec.
   Definition agg_hom {A} (zero : A) (seqf : A -> V -> A) (combf : A -> A -> A) : Prop :=
     forall a b : list V, combf (fold_left seqf a zero) (fold_left seqf b zero) = fold_left seqf (a ++ b) zero.
 End Spec.
+
+(* sortByKey: the relation the output is sorted by, and "has a key equivalent to k" (for stability) *)
+Definition key_le {K V} (le : K -> K -> bool) (x y : K * V) : Prop := le (fst x) (fst y) = true.
+Definition same_key {K V} (le : K -> K -> bool) (k : K) (x : K * V) : bool := le (fst x) k && le k (fst x).
+(* the order the output of sortByKey(ascending) is sorted by *)
+Definition dir_le {K} (le : K -> K -> bool) (asc : bool) : K -> K -> bool := if asc then le else fun a b => le b a.
